@@ -39,6 +39,7 @@ func rangeKinds() []rkind {
 		{name: "string:multibyte", setup: []string{`c := "aé€😀z"`}, hasVal: true, keyInt: true},
 		{name: "string:invalid-utf8", setup: []string{`c := "a\xff\xc3z\xe2\x82"`}, hasVal: true, keyInt: true},
 		{name: "string:empty", setup: []string{`c := ""`}, hasVal: true, keyInt: true},
+		{name: "string:valid-replacement-char", setup: []string{`c := "a\uFFFDb\uFFFD\uFFFD\xffz\uFFFD"`}, hasVal: true, keyInt: true},
 		{name: "string:reassigned", setup: []string{`c := "héy"`}, hasVal: true, keyInt: true, mutate: []string{`c = "zzzzzzzz"`}},
 		{name: "slice", setup: []string{`c := []int{11, 22, 33}`}, hasVal: true, keyInt: true,
 			mutate: []string{`c[2] = 99`, `c = append(c, 44)`, `c = c[:1]`, `c = nil`, `c[0], c[2] = c[2], c[0]`}},
